@@ -1,0 +1,56 @@
+//go:build verif
+
+package detector
+
+// Re-exports of the unexported later stages of the Aztec Detector for the verification harness
+// (/verif, property C06, work package detrest).  Nothing here changes behaviour; the file is compiled
+// only with -tags verif.
+
+import "github.com/makiuchi-d/gozxing"
+
+func (this *Detector) VerifGetColor(x1, y1, x2, y2 int) int {
+	return this.getColor(newPoint(x1, y1), newPoint(x2, y2))
+}
+
+func (this *Detector) VerifIsWhiteOrBlackRectangle(p [8]int) bool {
+	return this.isWhiteOrBlackRectangle(newPoint(p[0], p[1]), newPoint(p[2], p[3]), newPoint(p[4], p[5]), newPoint(p[6], p[7]))
+}
+
+// VerifGetBullsEyeCorners returns the corners, nbCenterLayers and compact as getBullsEyeCorners leaves them.
+func (this *Detector) VerifGetBullsEyeCorners(cx, cy int) ([]gozxing.ResultPoint, int, bool, error) {
+	pts, e := this.getBullsEyeCorners(newPoint(cx, cy))
+	return pts, this.nbCenterLayers, this.compact, e
+}
+
+func VerifExpandSquare(cornerPoints []gozxing.ResultPoint, oldSide, newSide int) []gozxing.ResultPoint {
+	return expandSquare(cornerPoints, oldSide, newSide)
+}
+
+func (this *Detector) VerifSampleLine(p1, p2 gozxing.ResultPoint, size int) int {
+	return this.sampleLine(p1, p2, size)
+}
+
+func (this *Detector) VerifIsValidPoint(p gozxing.ResultPoint) bool { return this.isValidPoint(p) }
+
+// VerifExtractParameters runs extractParameters from a given bull's eye state; returns shift, nbLayers, nbDataBlocks.
+func (this *Detector) VerifExtractParameters(bullsEyeCorners []gozxing.ResultPoint, nbCenterLayers int, compact bool) (int, int, int, error) {
+	this.nbCenterLayers, this.compact = nbCenterLayers, compact
+	e := this.extractParameters(bullsEyeCorners)
+	return this.shift, this.nbLayers, this.nbDataBlocks, e
+}
+
+func VerifGetRotation(sides []int, length int) (int, error) { return getRotation(sides, length) }
+
+func (this *Detector) VerifGetMatrixCornerPoints(bullsEyeCorners []gozxing.ResultPoint, nbCenterLayers int, compact bool, nbLayers int) []gozxing.ResultPoint {
+	this.nbCenterLayers, this.compact, this.nbLayers = nbCenterLayers, compact, nbLayers
+	return this.getMatrixCornerPoints(bullsEyeCorners)
+}
+
+func VerifGetDimension(compact bool, nbLayers int) int {
+	return (&Detector{compact: compact, nbLayers: nbLayers}).getDimension()
+}
+
+// VerifState exposes the parameters Detect has left in the detector.
+func (this *Detector) VerifState() (compact bool, nbLayers, nbDataBlocks, nbCenterLayers, shift int) {
+	return this.compact, this.nbLayers, this.nbDataBlocks, this.nbCenterLayers, this.shift
+}
